@@ -112,7 +112,9 @@ func genPlan(r *vrt.Run, hi int) Plan {
 	if hi%4 == 1 {
 		// "fat" family: many fresh accounts per block, so that a hash-scheme trie commit spans
 		// several write batches (ethdb.IdealBatchSize) and a crash can fall between them
-		p.Scheme, p.Snapshot, p.MaxDiff, p.Archive = rawdb.HashScheme, false, 0, rng.Intn(3) == 0
+		// (not archive: there every block commits its own small trie; the large commits are
+		// those of a clean stop, so the family also gets a restart after its first insert)
+		p.Scheme, p.Snapshot, p.MaxDiff, p.Archive = rawdb.HashScheme, false, 0, false
 		p.Fat = 80 + rng.Intn(60)
 		p.Len = 10 + rng.Intn(12)
 	}
@@ -126,6 +128,9 @@ func genPlan(r *vrt.Run, hi int) Plan {
 		case k < 5 || at == 0:
 			at += 1 + rng.Intn(p.Len-at)
 			p.Steps = append(p.Steps, Step{Kind: "insert", A: at})
+			if p.Fat > 0 && len(p.Steps) == 1 {
+				p.Steps = append(p.Steps, Step{Kind: "restart"})
+			}
 			if p.SideAt > 0 && at > p.SideAt+p.SideLen && rng.Intn(2) == 0 {
 				p.Steps = append(p.Steps, Step{Kind: "side"})
 				p.SideAt = -p.SideAt // inserted
